@@ -264,6 +264,11 @@ func execQueueUnit(t *testing.T, plan any, out *Outcome) {
 			if ch != it.ch {
 				violate("reader: entry %v is completed through a different channel than the one handed to the writer", tags)
 			}
+			if (multi == nil && resps != nil) || (multi != nil && len(resps) != len(multi)) {
+				// the result slice belongs to the caller that enqueued the batch; a single command has none
+				violate("reader: entry %v (%d command(s)) was handed a result slice of %d element(s): the reply slots of another caller's batch", tags, len(tags), len(resps))
+				resps = nil
+			}
 			for i := range resps {
 				resps[i] = NewResult(strmsg('+', tags[i]), nil)
 			}
